@@ -359,6 +359,24 @@ static void c16_pair(Reporter& R, const std::string& name, uint64_t id) {
           Q2 q2 = V2::make(junk);
           q2 = q1;
           if (!judge(q2, "assignment")) return;
+          // the target already holds numbers that compare equal to the result but are not the same numbers (the zero of the
+          // other sign in every slot whose result is a zero): assignment still stores the cast of the source
+          if constexpr (!direction) {
+            std::array<T2, N> twin = want;
+            bool differs = false;
+            for (auto& v : twin) {
+              if (v == 0) {
+                v = -v;
+                differs = true;
+              }
+            }
+            if (differs) {
+              Q2 q3 = V2::make(twin);
+              q3 = q1;
+              R.count("c16_assignments_onto_equal_comparing_target");
+              if (!judge(q3, "assignment-onto-equal-comparing-value")) return;
+            }
+          }
         }
         // widening followed by narrowing is the identity
         if constexpr (has_ctor && std::is_constructible_v<Q1, const Q2&> && (sizeof(T2) > sizeof(T1))) {
@@ -489,6 +507,28 @@ static void c17_type(Reporter& R, const std::string& name, uint64_t id) {
             return;
           }
           R.count("c17_setvalue_probes");
+          // the same onto a quantity whose current numbers compare equal to the new ones without being the same numbers
+          // (zeros of the other sign): the new numbers are stored, bit for bit
+          if constexpr (!is_direction<Q>::value) {
+            std::array<T, N> z = vals[0], twin;
+            for (size_t i = 0; i < N; ++i) {
+              if (N == 1 || rng.below(2) == 0) z[i] = rng.coin() ? static_cast<T>(0) : -static_cast<T>(0);
+              twin[i] = z[i] == 0 ? -z[i] : z[i];
+            }
+            Q mz = V::make(twin);
+            const Q oz = V::make(z);
+            const auto zs = V::arr(oz);
+            mz.SetValue(oz.Value());
+            const auto got = V::arr(mz);
+            R.eval();
+            for (size_t i = 0; i < N; ++i) {
+              if (!same_bits(got[i], zs[i])) {
+                R.violation(key + "|SetValue-onto-equal-comparing-value", J().s("type", name).i("slot", i).raw("held", jarr(twin)).raw("set", jarr(zs)).raw("read", jarr(got)).str());
+                return;
+              }
+            }
+            R.count("c17_setvalue_signed_zero_probes");
+          }
         }
         if constexpr (has_mutable_value<Q>::value) {
           Q m = V::make(a);
@@ -500,6 +540,25 @@ static void c17_type(Reporter& R, const std::string& name, uint64_t id) {
             return;
           }
           R.count("c17_mutablevalue_probes");
+          if constexpr (!is_direction<Q>::value) {
+            std::array<T, N> z = vals[1], twin;
+            for (size_t i = 0; i < N; ++i) {
+              if (N == 1 || rng.below(2) == 0) z[i] = rng.coin() ? static_cast<T>(0) : -static_cast<T>(0);
+              twin[i] = z[i] == 0 ? -z[i] : z[i];
+            }
+            Q mz = V::make(twin);
+            const Q oz = V::make(z);
+            const auto zs = V::arr(oz);
+            mz.MutableValue() = oz.Value();
+            const auto got = V::arr(mz);
+            R.eval();
+            for (size_t i = 0; i < N; ++i) {
+              if (!same_bits(got[i], zs[i])) {
+                R.violation(key + "|MutableValue-onto-equal-comparing-value", J().s("type", name).i("slot", i).raw("held", jarr(twin)).raw("written", jarr(zs)).raw("read", jarr(got)).str());
+                return;
+              }
+            }
+          }
           // whole-value assignment through the mutable reference from the other forms the value type accepts, onto a value that
           // already holds other numbers: every stored number is replaced, none is kept
           using VT = std::decay_t<decltype(std::declval<Q&>().MutableValue())>;
@@ -594,6 +653,30 @@ static void c17_assign(Reporter& R, const std::string& key, const char* form, Rn
   }
 }
 
+// the all-components setter called with references into the object's own storage, permuted: the arguments have definite
+// values at the call, so the result is the permutation of the old numbers
+template <typename S, size_t N, typename F>
+static void c17_self_permute(Reporter& R, const std::string& key, Rng& rng, F&& apply) {
+  using T = typename View<S>::T;
+  std::array<T, N> a;
+  for (size_t i = 0; i < N; ++i) a[i] = rng.logu<T>(-20, 20, true);
+  std::array<size_t, N> perm;
+  for (size_t i = 0; i < N; ++i) perm[i] = i;
+  for (size_t i = N - 1; i > 0; --i) std::swap(perm[i], perm[rng.below(i + 1)]);
+  S s = View<S>::make(a);
+  apply(s, perm);
+  const auto after = View<S>::arr(s);
+  R.eval();
+  for (size_t i = 0; i < N; ++i) {
+    if (!same_bits(after[i], a[perm[i]])) {
+      std::string ps;
+      for (size_t k = 0; k < N; ++k) ps += (k ? "," : "") + std::to_string(perm[k]);
+      R.violation(key + "|Set-all-components-from-own-storage", J().s("permutation", ps).i("slot", i).raw("before", jarr(a)).raw("after", jarr(after)).str());
+      return;
+    }
+  }
+}
+
 #define C17_COMP(S, COMP, SLOT)                                                                                               \
   c17_component<S>(R, key + "|Set", #COMP, SLOT, rng, [](S& s, T v) { s.Set_##COMP(v); return s.COMP(); });                      \
   c17_component<S>(R, key + "|Mutable", #COMP, SLOT, rng, [](S& s, T v) { s.Mutable_##COMP() = v; return s.COMP(); });
@@ -614,6 +697,7 @@ static void c17_shapes(Reporter& R, uint64_t id) {
       std::array<T, 2> b;
       for (auto& v : b) v = rng.logu<T>(-20, 20, true);
       c17_assign<PV>(R, key, "=array", rng, b, b);
+      c17_self_permute<PV, 2>(R, key, rng, [](PV& v, const std::array<size_t, 2>& p) { const auto& c = v.x_y(); v.Set_x_y(c[p[0]], c[p[1]]); });
     }
     {
       const std::string key = std::string("C17|Vector|") + Num<T>::name;
@@ -622,6 +706,7 @@ static void c17_shapes(Reporter& R, uint64_t id) {
       std::array<T, 3> b;
       for (auto& v : b) v = rng.logu<T>(-20, 20, true);
       c17_assign<VV>(R, key, "=array", rng, b, b);
+      c17_self_permute<VV, 3>(R, key, rng, [](VV& v, const std::array<size_t, 3>& p) { const auto& c = v.x_y_z(); v.Set_x_y_z(c[p[0]], c[p[1]], c[p[2]]); });
     }
     {
       const std::string key = std::string("C17|SymmetricDyad|") + Num<T>::name;
@@ -631,6 +716,10 @@ static void c17_shapes(Reporter& R, uint64_t id) {
       std::array<T, 6> b;
       for (auto& v : b) v = rng.logu<T>(-20, 20, true);
       c17_assign<SD>(R, key, "=array", rng, b, b);
+      c17_self_permute<SD, 6>(R, key, rng, [](SD& v, const std::array<size_t, 6>& p) {
+        const auto& c = v.xx_xy_xz_yy_yz_zz();
+        v.Set_xx_xy_xz_yy_yz_zz(c[p[0]], c[p[1]], c[p[2]], c[p[3]], c[p[4]], c[p[5]]);
+      });
     }
     {
       const std::string key = std::string("C17|Dyad|") + Num<T>::name;
@@ -640,6 +729,10 @@ static void c17_shapes(Reporter& R, uint64_t id) {
       std::array<T, 9> b;
       for (auto& v : b) v = rng.logu<T>(-20, 20, true);
       c17_assign<DD>(R, key, "=array", rng, b, b);
+      c17_self_permute<DD, 9>(R, key, rng, [](DD& v, const std::array<size_t, 9>& p) {
+        const auto& c = v.xx_xy_xz_yx_yy_yz_zx_zy_zz();
+        v.Set_xx_xy_xz_yx_yy_yz_zx_zy_zz(c[p[0]], c[p[1]], c[p[2]], c[p[3]], c[p[4]], c[p[5]], c[p[6]], c[p[7]], c[p[8]]);
+      });
       std::array<T, 6> six;
       for (auto& v : six) v = rng.logu<T>(-20, 20, true);
       const std::array<T, 9> emb = {six[0], six[1], six[2], six[1], six[3], six[4], six[2], six[4], six[5]};
